@@ -326,6 +326,81 @@ def outcome (rs : RetSig) : Firing V R → Outcome V R
 def firingsOf (k : Nat) (lg : List (Nat × Firing V R)) : List (Firing V R) :=
   (lg.filter (fun e => e.1 == k)).map (·.2)
 
+/-! ## Re-entrant callers: an errback that issues new calls (a retry)
+
+The caller's errback runs synchronously inside `d.errback(...)` (and, for a return whose
+`_cbCvtReply` raised, inside `d.callback(...)`), i.e. in the middle of the function of the
+connection that fired the Deferred.  In `methodReturnReceived`, `errorReceived` and
+`_onMethodTimeout` the firing is the last statement and the table has been updated before it; in
+`connectionLost` the firing happens INSIDE the loop, after `pending, self._pendingCalls =
+self._pendingCalls, {}`: the calls issued by the errback are registered in the new table (and
+their timers with the reactor) while the loop goes on cancelling and failing the old entries. -/
+
+/-- One `callRemote(expectReply=True, timeout, returnSignature)` issued by an errback; `serial` is the
+serial its message gets. -/
+structure NewCall where
+  serial : Nat
+  timeout : Option Nat
+  rs : RetSig
+  deriving DecidableEq, Repr
+
+/-- `returnSignature` bound into Deferred `did`. -/
+def rsOf (s : St V R) (did : Nat) : RetSig := (dGet did s.issued).getD .noCheck
+
+/-- Does the caller's errback run for this result? (a failure reaches it; a value does not) -/
+def isFailure : Outcome V R → Bool
+  | .value (.remoteError _) => true
+  | .value .pyError => true
+  | .value _ => false
+  | _ => true
+
+/-- The errbacks attached to Deferreds: (Deferred, the calls that errback issues). -/
+abbrev Reactions := List (Nat × List NewCall)
+
+def reactionOf (rx : Reactions) (did : Nat) : List NewCall :=
+  (rx.filter (fun e => e.1 == did)).flatMap (·.2)
+
+/-- The errback issues its calls, one after the other. -/
+def issue (s : St V R) (cs : List NewCall) : St V R :=
+  cs.foldl (fun s c => callOp s c.serial true c.timeout c.rs) s
+
+/-- What the caller's errback of Deferred `did` does right after `did` fired with `f`. -/
+def react (rx : Reactions) (s : St V R) (did : Nat) (f : Firing V R) : St V R :=
+  if isFailure (outcome (rsOf s did) f) then issue s (reactionOf rx did) else s
+
+/-- `connectionLost` with re-entrant errbacks: the loop over the old table, against the new one. -/
+def lostLoopR (rx : Reactions) (reason : R) : List (Nat × Pending) → St V R → St V R
+  | [], s => s
+  | (_, p) :: rest, s =>
+    match cancelOpt p.timer s.timers with
+    | none => { s with faults := s.faults ++ [.alreadyCalled] }
+    | some ts =>
+      lostLoopR rx reason rest (react rx (fire { s with timers := ts } p.did (.lost reason)) p.did (.lost reason))
+
+def lostOpR (rx : Reactions) (s : St V R) (reason : R) : St V R :=
+  if !s.ready then s else lostLoopR rx reason s.pending { s with pending := [] }
+
+structure StR (V R : Type) where
+  base : St V R
+  rx : Reactions
+
+inductive OpR (V R : Type) where
+  | op (o : Op V R)
+  /-- the caller attaches to the (unfired) Deferred `did` an errback that issues these calls -/
+  | onErr (did : Nat) (calls : List NewCall)
+
+/-- Every firing of `new` that `old` did not have yet, followed by its errback's calls. -/
+def reactAll (rx : Reactions) (old new : St V R) : St V R :=
+  (new.log.drop old.log.length).foldl (fun s e => react rx s e.1 e.2) new
+
+def stepR (asStr : V → Option (List Char)) (sr : StR V R) : OpR V R → StR V R
+  | .onErr did calls => { sr with rx := sr.rx ++ [(did, calls)] }
+  | .op (.lost reason) => { sr with base := lostOpR sr.rx sr.base reason }
+  | .op o => { sr with base := reactAll sr.rx sr.base (step asStr sr.base o) }
+
+def runR (asStr : V → Option (List Char)) (sr : StR V R) (ops : List (OpR V R)) : StR V R :=
+  ops.foldl (stepR asStr) sr
+
 /-! ## The process-wide serial counter (`DBusMessage._marshal`, `newSerial=True`) -/
 
 /-- `self.serial = DBusMessage._nextSerial; DBusMessage._nextSerial += 1`:
